@@ -29,7 +29,7 @@ pub fn describe(cc: &CCase) -> Value {
     v["src_container"] = json!({"kind": format!("{:?}", cc.sk), "place": cc.sp.to_json()});
     v["dst_container"] = json!({"kind": format!("{:?}", cc.dk), "place": cc.dp.to_json()});
     v["backend"] = json!(cc.ext.name());
-    v["op"] = json!(["resize", "multiply_alpha", "divide_alpha", "multiply_alpha_inplace", "divide_alpha_inplace"][cc.op as usize]);
+    v["op"] = json!(["resize", "multiply_alpha", "divide_alpha", "multiply_alpha_inplace", "divide_alpha_inplace", "srgb_forward_map", "change_type_of_pixel_components"][cc.op as usize]);
     v
 }
 
@@ -86,6 +86,22 @@ pub fn run(ctx: &mut Ctx) {
         total,
         |_, idx| {
             let mut cc = gen_ccase(seed, "C13", idx, &o, false);
+            if !nearest_edge && !threads_step && idx % 11 == 3 {
+                // colour mapping (op 5, 8/16-bit types) and component conversion (op 6) through the dynamic containers, the mutable
+                // cropped view in the source role included
+                let mut rng = Rng::for_case(seed, "C13map", idx);
+                let c = &mut cc.c;
+                cc.op = if matches!(pt_kind(c.pt), CompKind::U8 | CompKind::U16) && rng.chance(1, 2) { 5 } else { 6 };
+                cc.sk = *rng.pick(&[SrcKind::DynRef, SrcKind::DynCrop, SrcKind::DynCropMutSrc, SrcKind::DynCropMutSrc]);
+                cc.dk = *rng.pick(&[DstKind::DynImage, DstKind::DynCropMut]);
+                c.sw = c.sw.max(1);
+                c.sh = c.sh.max(1);
+                c.dw = c.sw;
+                c.dh = c.sh;
+                c.crop = Crop::None;
+                cc.sp = gen_place(&mut rng, c.sw, c.sh, cc.sk.is_crop(), false);
+                cc.dp = gen_place(&mut rng, c.dw, c.dh, cc.dk.is_crop(), false);
+            }
             if nearest_edge {
                 // C11's hardest geometry through every container: Nearest with a sub-pixel crop box flush against
                 // the right/bottom edge of the (possibly cropped) source view
@@ -118,6 +134,8 @@ pub fn run(ctx: &mut Ctx) {
             let body = |stats: &mut Stats, viols: &mut Vec<Viol>| {
                 if cc.op == 0 {
                     with_px!(cc.c.pt, P => exec_resize::<P>(cc, stats, viols, threads))
+                } else if cc.op >= 5 {
+                    with_px!(cc.c.pt, P => exec_mapchange::<P>(cc, stats, viols))
                 } else {
                     with_alpha_px!(cc.c.pt, P => exec_alpha::<P>(cc, stats, viols))
                 }
@@ -161,6 +179,60 @@ fn exec_resize<P: Px>(cc: &CCase, stats: &mut Stats, viols: &mut Vec<Viol>, thre
             }
         }
         (a, b) => viols.push(Viol::new("container_dependent_outcome", format!("plain: {:?}, {:?}->{:?}: {:?}", a.map(|_| ()), cc.sk, cc.dk, b))),
+    }
+}
+
+/// op 5: sRGB forward mapping P -> P; op 6: change_type_of_pixel_components P -> P (both through the dynamic entry points)
+fn exec_mapchange<P: Px>(cc: &CCase, stats: &mut Stats, viols: &mut Vec<Viol>) {
+    use std::sync::OnceLock;
+    static MAPPER: OnceLock<fr::PixelComponentMapper> = OnceLock::new();
+    let mp = MAPPER.get_or_init(fr::create_srgb_mapper);
+    let c = &cc.c;
+    let src = make_pixels::<P>(c.sw, c.sh, &c.content, c.alpha.as_ref());
+    let call = |s: &dyn Fn(&mut Image) -> Result<(), String>| -> Result<Vec<P>, String> {
+        // reference: plain owned images
+        let mut d = Image::new(c.sw, c.sh, P::PT);
+        s(&mut d)?;
+        Ok(TypedImageRef::<P>::from_buffer(c.sw, c.sh, d.buffer()).unwrap().pixels().to_vec())
+    };
+    let bytes: Vec<u8> = {
+        let b = unsafe { std::slice::from_raw_parts(src.as_ptr() as *const u8, src.len() * std::mem::size_of::<P>()) };
+        b.to_vec()
+    };
+    let want = call(&|d: &mut Image| {
+        // Vec<u8> of an aligned copy: go through a Backing so that the bytes are aligned for P
+        let sb = Backing::<P>::new(Place::exact(c.sw, c.sh), c.sw, c.sh, 0);
+        let mut sb = sb;
+        sb.put(&src);
+        let s = ImageRef::new(c.sw, c.sh, sb.bytes(), P::PT).map_err(|e| format!("{:?}", e))?;
+        if cc.op == 5 { mp.forward_map(&s, d).map_err(|e| format!("{:?}", e)) } else { fr::change_type_of_pixel_components(&s, d).map_err(|e| format!("{:?}", e)) }
+    });
+    let _ = bytes;
+    let mut sb = Backing::<P>::new(cc.sp, c.sw, c.sh, 0x3131);
+    sb.put(&src);
+    let mut db = Backing::<P>::new(cc.dp, c.sw, c.sh, 0x4141);
+    stats.seen("map_change_paths", format!("{}:{:?}->{:?}", cc.op, cc.sk, cc.dk));
+    stats.nontrivial(&describe(cc));
+    let got: Result<(), String> = with_dyn_src!(P, &sb, cc.sk, |s| with_dyn_dst!(P, &mut db, cc.dk, |d| (if cc.op == 5 { mp.forward_map(&s, &mut d).map_err(|e| format!("{:?}", e)) } else { fr::change_type_of_pixel_components(&s, &mut d).map_err(|e| format!("{:?}", e)) })));
+    match (want, got) {
+        (Ok(want), Ok(())) => {
+            let out = db.view_pixels();
+            if P::bits_of(&out) != P::bits_of(&want) {
+                let i = (0..out.len()).find(|&i| P::bits_of(&[out[i]]) != P::bits_of(&[want[i]])).unwrap();
+                viols.push(
+                    Viol::new("container_dependent_result", format!("op {} {:?}->{:?}: pixel {} = {:?}, plain images give {:?} (source {:?})", cc.op, cc.sk, cc.dk, i, out[i], want[i], src[i]))
+                        .sig(json!({"pt": P::NAME, "op": cc.op, "src": format!("{:?}", cc.sk)})),
+                );
+            }
+            if let Some(i) = db.first_outside_change(0x4141) {
+                viols.push(Viol::new("write_outside_destination", format!("op {} {:?}->{:?}: backing pixel {} outside the view changed", cc.op, cc.sk, cc.dk, i)));
+            }
+        }
+        (a, b) => {
+            if a.is_ok() != b.is_ok() {
+                viols.push(Viol::new("container_dependent_outcome", format!("op {}: plain: {:?}, {:?}->{:?}: {:?}", cc.op, a.map(|_| ()), cc.sk, cc.dk, b)));
+            }
+        }
     }
 }
 
